@@ -61,10 +61,11 @@ ASSUMPTIONS = [
     'parameter names are distinct and do not collide with statistic labels or end in " (std)" / " (ttest)" (row labels of the compiled table)',
 ]
 RULE = (
-    'raw outcomes with K in 1..6; non-trivial = K >= 2 and (Hessian singular / with NaN / indefinite, or bootstrap present, or an active bound); '
+    'raw outcomes with K in 1..6; non-trivial = K >= 2 and (Hessian exactly singular / numerically rank-deficient (collinear regressors) / with NaN / indefinite, or bootstrap present, or an active bound); '
     'compiled tables over 1-3 models; likelihood-ratio pairs'
 )
-TOL = 'stage-wise (code matrix in, statistic out): rel 1e-11, p-values abs 1e-10; matrix products/covariances: 1e-9 of the scale; Penrose residuals: 1e4*K^2*eps*scale'
+TOL = ('stage-wise (code matrix in, statistic out): rel 1e-11, p-values abs 1e-10; matrix products/covariances: 1e-9 of the scale; Penrose residuals: 1e4*K^2*eps*scale, '
+       'the scale being the norm of THE pseudo-inverse (1/smallest non-zero singular value of -H) whenever the numerical rank is unambiguous; then also |V| <= 2K/sigma_min+ and V = reference pseudo-inverse (1e-6)')
 
 WHERE_K1 = 'bioResults._calculate_stats: np.cov of a one-column bootstrap sample (K = 1)'
 
